@@ -222,6 +222,10 @@ def run(ctx):
             if not compare_matrix(res, c, "LocalConcurrences(%s) matrix" % engine, lcres["start"], model):
                 continue
             res.hit("lc_matrix_compared")
+            if lcres.get("positivized_equals_start") is False:
+                res.violations.append({"clause": "the positivized view of the matrix (marks of earlier matches removed) is "
+                                                 "the matrix of the recurrence: excluded cells stay excluded", "engine": engine,
+                                       "case": c})
             if not check_matches(res, c, engine, lcres, compact):
                 continue
             if compact and c["penalty"]:
